@@ -385,9 +385,21 @@ func (db *RockDB) SRem(ts int64, key []byte, args ...[]byte) (int64, error) {
 	var ek []byte
 
 	var num int64 = 0
+	var handled map[string]struct{}
+	if len(args) > 1 {
+		handled = make(map[string]struct{}, len(args))
+	}
 	for i := 0; i < len(args); i++ {
 		if err := checkCollKFSize(key, args[i]); err != nil {
 			return 0, err
+		}
+		if handled != nil {
+			// a member repeated in one call is removed (and counted) once,
+			// the existence check below only sees committed data
+			if _, ok := handled[string(args[i])]; ok {
+				continue
+			}
+			handled[string(args[i])] = struct{}{}
 		}
 
 		ek = sEncodeSetKey(table, rk, args[i])
